@@ -21,7 +21,7 @@ through insert_for_record(.., &source) with the record the value was resolved fr
 paired with the matching cache_memory adjustment under the bucket lock and only cache.rs writes cache_memory.
 Not decided: on/off result equality over workloads; CLOCK eviction quality.
 """
-DECIDED = ['the entry selection predicates of record_entry / remove_entry are pure conjunctions key equality AND generation identity (no other way to true)', 'every cache hit raises the reference bit the CLOCK sweep reads', "keyed API only from the store", "generation-match guards on hit / remove / overwrite", "invalidate on every replace/remove",
+DECIDED = ['sweeps exclude each other: the eviction mutex guard is held at every bucket acquisition, eviction and clock-hand store of evict_entries', 'the entry selection predicates of record_entry / remove_entry are pure conjunctions key equality AND generation identity (no other way to true)', 'every cache hit raises the reference bit the CLOCK sweep reads', "keyed API only from the store", "generation-match guards on hit / remove / overwrite", "invalidate on every replace/remove",
            "byte accounting pairing under the bucket lock",
            'expiry is tested before any value tier, the cache included (shared with C11.lazy)',
            'clear() sums and empties a bucket in one critical section',
@@ -413,6 +413,18 @@ def check_sweep(ctx):
     rm = ctx.sites(b, R.call("Vec::remove"), inst, exact=1)
     if not rm:
         return
+    # (added after C16-i) one sweep at a time: the eviction mutex taken by try_lock is still held at every bucket acquisition,
+    # at the eviction itself and where the clock hand is stored. `let Some(_) = try_lock() else { return }` compiles, drops the
+    # guard at the end of that statement, and lets a second sweeper follow the first one over buckets whose reference bits were
+    # just cleared: it evicts recently referenced entries although unreferenced ones further on would have sufficed.
+    bl = L.lock_graph(ctx.prog).bl[b.path]
+    ev_acq = [n_ for n_, c_ in bl.acq.items() if c_ == "L_evict"]
+    ctx.check(len(ev_acq) == 1 and all(a in bl.try_acq for a in ev_acq), inst, "anchor", b.path, "the sweep takes the eviction mutex once, without blocking (found %d)" % len(ev_acq), None)
+    crit = [n_ for n_, c_ in bl.acq.items() if c_ == "L_cb"] + list(rm) + list(R.field_write("ClockCache", "clock_hand", ops=["store"])(b))
+    ctx.check(len(crit) >= 3, inst, "anchor", b.path, "bucket acquisition, eviction and clock-hand store found (%d sites)" % len(crit), None)
+    for x in crit:
+        ctx.check("L_evict" in bl.must_classes(x), inst, "HELD", b.path, "the eviction mutex is held for the whole sweep (bucket locks, evictions, clock hand)", b.where(x),
+                  {"held": sorted(bl.must_classes(x))})
     idx = roles.recv_local(b, b.nodes[rm[0]], 1)
     ctx.check(idx is not None and len(b.defs.get(idx, [])) >= 2, inst, "anchor", b.path, "the in-bucket cursor is a local advanced in the loop", b.where(rm[0]))
     if idx is None:
